@@ -7,11 +7,77 @@ use crate::fmtcommon::*;
 use crate::gen_wasm_format::format_blots;
 use crate::progen::{self, scan_comments, GenCfg};
 use crate::util::{guarded, Ctx, Model, Report, Rng};
+use crate::wire;
+use blots_core::ast::SpannedExpr;
+use blots_core::formatter::format_expr;
 
 fn comments_differ(src: &str, out: &str) -> Option<String> {
     let a = scan_comments(src);
     let b = scan_comments(out);
     if a == b { None } else { Some(format!("input comments {:?} output comments {:?} output={:?}", a, b, out)) }
+}
+
+/// MODEL TIE for the comment pieces: the comments the model tags as comment pieces of
+/// `format_expr`'s output (what the theorems of Props/C09.lean speak about) are the comments
+/// a lexer-level scan finds in the REAL `format_expr` output, in the same order.  A comment
+/// piece of several lines (the parser joins the dangling comments after the last item into
+/// one trailing comment) is one scanned comment per line.
+fn check_model_comments(model: &mut Model, rep: &mut Report, e: &SpannedExpr, w: usize, desc: &str) {
+    let real = match guarded(|| format_expr(e, Some(w))) {
+        Ok(s) => s,
+        Err(_) => return, // reported by check_model_print
+    };
+    let m = model.ask(&format!("fmt-comments {} {}", w, wire::expr(e)));
+    let inner = m.trim().strip_prefix('(').and_then(|x| x.strip_suffix(')'));
+    let pieces: Option<Vec<String>> = inner.map(|x| x.split_whitespace().map(|a| wire::unhs(a)).collect::<Option<Vec<_>>>()).flatten();
+    let pieces = match pieces {
+        Some(p) => p,
+        None => {
+            rep.finding("model", "fmt-comments-bad-answer", desc, &m, "c09.model.fmt-comments");
+            return;
+        }
+    };
+    let model_lines: Vec<String> = pieces.iter().flat_map(|p| p.split('\n').map(|l| l.strip_suffix('\r').unwrap_or(l).to_string()).collect::<Vec<_>>()).collect();
+    let scanned = scan_comments(&real);
+    if model_lines != scanned {
+        rep.finding("model", "comment-pieces", &format!("w={} {}", w, desc),
+            &format!("scan of real output {:?} model comment pieces {:?} real={:?}", scanned, pieces, real), "c09.model.comment-pieces");
+    }
+    rep.count("comment-piece-ties");
+}
+
+/// sources with carriage returns in comments / strings (the `lines()` round trip of
+/// format_binary_op_multiline rewrites them): model correspondence only — what the real code
+/// does to them is described in Props/C09.lean `carriage_return_is_stripped_from_comment`
+const CR_SOURCES: &[&str] = &[
+    "y = l via x => [\n  v, // c\r\r\n]",
+    "y = l via x => [\n  v, // c\r\r\n  w // d\r\r\n  // e\r\r\n]",
+    "y = l into x => {\n  a: 1, // c\r\r\n  b: \"p\r\nq\",\n}",
+    "y = l where x => \"a\r\nb\"",
+    "y = l via x => \"a\r\r\nb\r\"",
+    "y = [\n  v, // c\r\r\n]",
+    "y = l via x => (m via z => [\n  v, // c\r\r\r\n])",
+    "y = l via x => do {\n  // a\r\r\n  t = \"q\r\n\"  // b\r\r\n  return t\n}",
+];
+
+/// trees the parser cannot build: names that end in line feeds (the `lines()` round trip
+/// drops a final line feed), a trailing comment on a `return` item
+fn handmade_trees() -> Vec<SpannedExpr> {
+    use blots_core::ast::{BinaryOp, Commented, Expr, Spanned};
+    use blots_core::values::LambdaArg;
+    let id = |s: &str| Spanned::dummy(Expr::Identifier(s.to_string()));
+    let lam = |b: SpannedExpr| Spanned::dummy(Expr::Lambda { args: vec![LambdaArg::Required("x".to_string())], body: Box::new(b) });
+    let via = |l: SpannedExpr, r: SpannedExpr| Spanned::dummy(Expr::BinaryOp { op: BinaryOp::Via, left: Box::new(l), right: Box::new(r) });
+    let mut out = vec![];
+    for name in ["a\n", "a\n\n", "a\r\n\n", "a\nb\r", "\n", "\n\n", "a\r", "a\r\n", ""] {
+        out.push(via(id("l"), lam(id(name))));
+        out.push(via(id("l"), lam(Spanned::dummy(Expr::List(vec![Commented::with_comments(vec!["// l\r".to_string()], id("v"), Some("// t\r\n".to_string())), Commented::new(id(name))])))));
+    }
+    out.push(Spanned::dummy(Expr::DoBlock {
+        statements: vec![Commented::with_comments(vec!["// s".to_string()], id("p"), Some("// st".to_string()))],
+        return_expr: Box::new(Commented::with_comments(vec!["// r".to_string()], id("q"), Some("// rt".to_string()))),
+    }));
+    out
 }
 
 pub fn known_probes() -> Vec<(&'static str, &'static str)> {
@@ -73,6 +139,34 @@ pub fn run(ctx: &Ctx, rep: &mut Report) {
             }
         }
         cli_batch.push(src.to_string());
+        if let Ok(stmts) = crate::run::parse_program(src, true) {
+            for (s, _) in stmts {
+                if let crate::run::Stmt::Expr(e) | crate::run::Stmt::Output(e) = s {
+                    for &w in widths {
+                        check_model_comments(&mut model, rep, &e, w, src);
+                    }
+                }
+            }
+        }
+    }
+
+    // the `lines()` round trip on carriage returns and final line feeds: model tie only
+    for src in CR_SOURCES.iter() {
+        rep.case(src, true);
+        match crate::run::parse_program(src, true) {
+            Ok(stmts) => {
+                for (s, _) in stmts {
+                    if let crate::run::Stmt::Expr(e) | crate::run::Stmt::Output(e) = s {
+                        check_model_print(&mut model, rep, &e, widths, src, "c09");
+                    }
+                }
+            }
+            Err(e) => rep.finding("model", "cr-source-rejected", src, &e, "c09.cr-source-rejected"),
+        }
+    }
+    for (k, e) in handmade_trees().iter().enumerate() {
+        rep.case(&format!("handmade tree {}", k), true);
+        check_model_print(&mut model, rep, e, widths, &format!("handmade tree {}", k), "c09");
     }
 
     for i in 0..n_prog {
@@ -109,7 +203,9 @@ pub fn run(ctx: &Ctx, rep: &mut Report) {
             if let Ok(stmts) = crate::run::parse_program(&src, true) {
                 for (s, _) in stmts {
                     if let crate::run::Stmt::Expr(e) | crate::run::Stmt::Output(e) = s {
-                        check_model_print(&mut model, rep, &e, &[widths[rng.below(widths.len())]], &src, "c09");
+                        let wd = widths[rng.below(widths.len())];
+                        check_model_print(&mut model, rep, &e, &[wd], &src, "c09");
+                        check_model_comments(&mut model, rep, &e, wd, &src);
                     }
                 }
             }
